@@ -4,7 +4,9 @@ import Driver.OpsRpu
 import Driver.OpsAv1
 import Driver.OpsEdit
 import Driver.OpsEditor
+import Driver.OpsExport
 import Driver.OpsFile
+import Driver.OpsCapi
 /-! `dovi_model`: the executable model behind the line protocol (one case per line in, one result per line out). -/
 open Driver
 
@@ -15,7 +17,9 @@ def step (line : String) : String :=
     if ["esc", "unesc", "hesc", "hunesc", "escdigest"].contains op then C13.run parts
     else if op.startsWith "av1." || op == "c08.av1" || (op == "c08.capi" && parts.getD 1 "" == "av1") then Av1Ops.run parts
     else if op.startsWith "file." then FileOps.run parts
+    else if op == "export" then ExportOps.run parts
     else if op == "editor" then EditorOps.run parts
+    else if op.startsWith "capi." || op == "rpu.ops3" then CapiOps.run parts
     else if op == "rpu.ops" then EditOps.run parts
     else if op.startsWith "c08." then RpuOps.run parts
     else if op.startsWith "rpu." || op.startsWith "nalu." then RpuOps.run parts
